@@ -109,6 +109,7 @@ PLAN = {
         level="proof",
         verus=["C09_flags.rs", "C02_dense.rs", "C02_forward_glue.rs"],
         kani=True,
+        native_checks=[("dropout.leak", "bounded native grid: networks with dropout 0.5 on every layer (dense, convolution, deconvolution+max-pool, feedback block): the validation metrics reported by learn() equal validate() on the trained network, validate() is repeatable, predictions equal those of the same weights without dropout; 24 instances")],
         undecided_clauses=["the five flag loops are proved for every layer sequence (units *.loop); the dropout GUARD of each layer kind is proved too (units dense.forward, "
                            "conv.forward.glue, deconv.forward.glue: dropout is applied iff the layer is training and a rate is set; max-pool has none) and additionally run by Kani per kind",
                            "composition: validate = prologue; per-sample predictions; epilogue and learn = entry; epochs; exit is proved at the level of abstract flag-setting "
